@@ -1,6 +1,8 @@
+import RLV.Model.Uni
 namespace RLV.Esc
 
-/-! Repaired `escape` / `unescapeRunes` (hex increments fixed, `needsHex`), prototype of C19. -/
+/-! `inputrc.escape` / `inputrc.unescapeRunes` (inputrc/inputrc.go, inputrc/parse.go) as they are in the
+tree (after the `fix:` commits for the hex increments and `needsHex`). Runes are `Nat`s. -/
 
 def bs : Nat := 0x5c
 
@@ -14,12 +16,15 @@ def hexVal (c : Nat) : Nat :=
   else if 0x41 ≤ c && c ≤ 0x46 then c - 0x41 + 10
   else c - 0x30
 
-/-- ASCII/Latin-1 part of `unicode.ToUpper` that matters below 0x100 -/
-def toUpper (c : Nat) : Nat :=
+/-- `unicode.ToUpper` below 0x100, written out (tied to the generated table by `toUpperLo_gen`) -/
+def toUpperLo (c : Nat) : Nat :=
   if 0x61 ≤ c && c ≤ 0x7a then c - 32
   else if c == 0xb5 then 0x39c
   else if (0xe0 ≤ c && c ≤ 0xfe) && c != 0xf7 then c - 32
   else if c == 0xff then 0x178 else c
+
+/-- `unicode.ToUpper`: written out below 0x100, the generated table above -/
+def toUpper (c : Nat) : Nat := if c < 256 then toUpperLo c else Uni.toUpper c
 
 def encontrol (c : Nat) : Nat := (toUpper c) &&& 0x1f
 def enmeta (c : Nat) : Nat := c ||| 0x80
@@ -64,7 +69,7 @@ def unescF : Nat → List Nat → List Nat
 def unescape (r : List Nat) : List Nat :=
   if r.length = 1 then r else unescF r.length r
 
-/-- `unicode.IsPrint` below 0x100 (Go 1.23 tables); above: a parameter of the theorems. -/
+/-- `unicode.IsPrint` below 0x100, written out (tied to the generated table by `isPrintLo_gen`) -/
 def isPrintLo (c : Nat) : Bool :=
   (0x20 ≤ c && c ≤ 0x7e) || (0xa1 ≤ c && c ≤ 0xac) || (0xae ≤ c && c ≤ 0xff)
 
@@ -74,6 +79,12 @@ def needsHex (c : Nat) : Bool :=
   c == 0x1c ||
   ((0x80 ≤ c && c ≤ 0xff) &&
     (let d := c - 0x80; !isPrintLo d || d == bs || d == 0x22 || d == 0x27))
+
+/-- lowercase hexadecimal digits of `n` (`%x`), most significant first -/
+def hexDigitsAux : Nat → Nat → List Nat → List Nat
+  | 0, _, acc => acc
+  | f+1, n, acc => if n < 16 then hexChar n :: acc else hexDigitsAux f (n / 16) (hexChar (n % 16) :: acc)
+def hexDigits (n : Nat) : List Nat := hexDigitsAux 8 n []
 
 /-- one rune of `escape` (macro = `EscapeMacro`), for c ≤ 0xff or printable -/
 def escape1 (mac : Bool) (c : Nat) : List Nat :=
@@ -86,8 +97,13 @@ def escape1 (mac : Bool) (c : Nat) : List Nat :=
   else if needsHex c then [bs, 0x78, hexChar (c / 16), hexChar (c % 16)]
   else if c < 0x20 then [bs, 0x43, 0x2d, toUpper (c ||| 0x40)]
   else if 0x80 ≤ c ∧ c ≤ 0xff then [bs, 0x4d, 0x2d, c - 0x80]
-  else [c]
+  else if c < 256 ∨ Uni.isPrint c then [c]
+  else bs :: 0x78 :: hexDigits c          -- `\x%2x`: at least three digits above 0xff
 
 def escape (mac : Bool) (s : List Nat) : List Nat := s.flatMap (escape1 mac)
+
+/-- the written-out Latin-1 tables are the toolchain's (regenerated every run) -/
+theorem toUpperLo_gen : ∀ c, c < 256 → toUpperLo c = Uni.toUpper c := by decide +kernel
+theorem isPrintLo_gen : ∀ c, c < 256 → isPrintLo c = Uni.isPrint c := by decide +kernel
 
 end RLV.Esc
